@@ -1174,7 +1174,16 @@ def c09_check(case):
 
 def c10_gen(rng):
     t = gen.gen_tree(rng, wf=True, strict=maybe(rng, 0.7))
-    return {'tree': j_node(t), 'fmt': rng.choice(gen.FMTS[:7]), 'model': gen.gen_model(rng, custom=False)}
+    fmt = rng.choice(gen.FMTS[:7])
+    if maybe(rng, 0.12) and any(p in ('i', 'j') for p in fmt):
+        # variables that are already the generated names, on other nodes (a permutation of them)
+        try:
+            t0 = Tree(copy.deepcopy(t))
+            t0.reset_variables(ops.fmt_string(fmt))
+            t = gen.permute_vars(rng, t0.node)
+        except Exception:  # noqa: BLE001
+            pass
+    return {'tree': j_node(t), 'fmt': fmt, 'model': gen.gen_model(rng, custom=False)}
 
 
 def c10_check(case):
@@ -1966,6 +1975,8 @@ def c20_gen(rng):
         opts['triples'] = True
     model = rng.choice(['default', 'amr', 'amr', 'noop'])
     text = corr.gen_stream_text(rng, wf=maybe(rng, 0.85))
+    if model == 'amr' and maybe(rng, 0.2):
+        text = penman.format(Tree(gen.reified_tree(rng)), indent=None) + '\n'
     case = {'opts': opts, 'model': model, 'input': text}
     if maybe(rng, 0.03):
         # a constant spelled like the name --make-variables will choose (known finding F23)
